@@ -354,7 +354,9 @@ def oracles(results):
         for k, (o, f) in enumerate(zip(outs, fresh)):
             if f is not None and o != f and not same(o, f):
                 op = r.case['ops'][k]
-                yield r.case, (f'op #{k} evaluate({r.case["nodes"][op[1]][1]}) = {core.show(o)} but a from-scratch '
+                where = (r.case['nodes'][op[1]][1] if op[0] == 'E' else
+                         '[' + ', '.join(r.case['nodes'][a][1] for a in op[1]) + ']')
+                yield r.case, (f'op #{k} evaluate({where}) = {core.show(o)} but a from-scratch '
                                f'compile with the current inputs gives {core.show(f)}')
                 break
             if o.startswith('!'):
@@ -631,7 +633,7 @@ def near_value(rng, v):
     v = 0 if v is None or isinstance(v, (str, bool)) else v
     r = rng.random()
     if v == 0:
-        return rng.choice([2.0 ** -40, -2.0 ** -30, 1e-9, -1e-12, 5e-324, 0, 1, None])
+        return rng.choice([2.0 ** -40, 2.0 ** -30, 1e-9, 1e-12, 0, 1, None])
     if r < 0.25 and float(v).is_integer() and abs(v) >= 1000:
         return int(v) + rng.choice([1, -1])
     if r < 0.45:
@@ -667,17 +669,17 @@ def gen_near(rng):
             kind = 'sub'
         if kind in ('sub', 'eq'):
             p = rng.randrange(npairs)
-            # `=` only on value cells: float arithmetic on wildly different magnitudes is inexact, the model is exact
-            pool = inputs if kind == 'eq' else cellnodes
-            args = [2 * p, 2 * p + 1] if rng.random() < 0.7 else [rng.choice(pool), rng.choice(pool)]
+            # arithmetic and `=` read value cells only: the model is exact, pycel computes in floats, and a rounding
+            # error (relative 1e-16, tolerated by `same`) would be amplified by a chained subtraction or flip an `=`
+            args = [2 * p, 2 * p + 1] if rng.random() < 0.7 else [rng.choice(inputs), rng.choice(inputs)]
         elif kind == 'add':
-            args = [rng.choice(cellnodes), rng.choice(cellnodes)]
+            args = [rng.choice(inputs), rng.choice(inputs)]
         elif kind == 'ref':
             args = [rng.choice(cellnodes)]
         elif kind == 'idx':
             args = [rn, rng.randint(1, npairs), rng.randint(1, 2)]
         else:
-            args = [rn] + ([rng.choice(cellnodes)] if rng.random() < 0.4 else [])
+            args = [rn] + ([rng.choice(inputs)] if rng.random() < 0.4 else [])
         nodes.append(['F', f'Sheet1!{colname(1 + k % 3)}{row + k // 3}', kind, args])
     # history: evaluate, then near-equal writes (single and multi-cell), evaluate again
     cur = {i: _py(nodes[i][2]) for i in inputs}
